@@ -20,6 +20,12 @@ PROPS = {
     "C05": {"streams": [S("file", 150, 1500), S("sweep", 1, 3), S("bigfile", 1, 1)], "projection": "parts:open=,T=,Y=,D=,d=,V=,S0="},
     "C18": {"streams": [S("prefix", 40, 400)], "projection": "full"},
     "C20": {"streams": [S("file", 150, 1500), S("sweep", 1, 3)], "projection": "parts:open=,C=,Y=,D=,d=,N=,H=,S,P"},
+    "C11": {"streams": [S("gnu", 200, 2500), S("file", 60, 400)], "projection": "parts:ok,err,new,open=,H=,C="},
+    "C12": {"streams": [S("sysv", 200, 2500), S("file", 60, 400)], "projection": "parts:ok,err,new,open=,H=,C=", "also_tags": []},
+    "C13": {"streams": [S("symver", 150, 1500), S("file", 80, 500)], "projection": "parts:ok,err,r,d0,d1,d2,d3,d4,d5,d6,d7,d8,d9,V=,open="},
+    "C14": {"streams": [S("notes", 400, 4000), S("file", 80, 500)], "projection": "parts:ok,err,open=,S,P"},
+    "C16": {"streams": [S("sysv", 120, 1200), S("gnu", 120, 1200), S("symver", 120, 1200), S("notes", 200, 2000),
+                        S("table", 300, 2000), S("file", 60, 400)], "projection": "status", "timed": True},
     "C01": {
         "streams": [S("int", 1500, 10000), S("parse", 1500, 8000), S("table", 800, 4000), S("strtab", 800, 6000),
                     S("ident", 400, 2000), S("notes", 300, 3000), S("sysv", 120, 1000), S("gnu", 120, 1000),
@@ -137,6 +143,54 @@ LEVEL_TEXT["C20"] = {
             "(theorem pending).",
     "note": COMMON_NOTE,
     "technique": "Lean 4 proof + differential correspondence + accessor cross-comparison oracle",
+}
+
+LEVEL_TEXT["C11"] = {
+    "text": "Theorems for any table bytes: find_sound (a returned (i,sym) is symtab[i] and the NUL-terminated string at st_name has exactly the "
+            "queried bytes), gnu_hash = djb2 (h*33+c from 5381) mod 2^32 for every byte string, empty bucket array / bloom filter => None, no "
+            "division by zero (C01), chain walk examines at most chain_len entries (C16). Completeness on well-formed tables (bloom/bucket/"
+            "chain invariants) is established by the correspondence on tables built per the GNU format by an independent Rust builder over "
+            "name sets with duplicates, prefixes, djb2 collisions and same-bucket absent names; its Lean theorem is pending (partial).",
+    "note": COMMON_NOTE + " find_complete/find_absent under WFGnu are not yet theorems: that clause currently rests on the differential run + builder oracle.",
+    "technique": "Lean 4 proof (soundness, hash function) + differential correspondence on format-built tables + linear-scan oracle",
+}
+LEVEL_TEXT["C12"] = {
+    "text": "Theorems for any table bytes: find_sound, empty bucket array => None, chain walk makes at most nchain steps (cyclic and self-"
+            "referential chains stop). The exported hash function is compared with the gABI elf_hash reference (32-bit form) exhaustively on "
+            "all strings of length <= 3 over a 16-symbol alphabet (thorough) plus random strings by the harness; completeness on well-formed "
+            "tables rests on the correspondence with tables built per the gABI by an independent builder (Lean theorems pending: partial).",
+    "note": COMMON_NOTE + " sysv_hash = elf_hash and find_complete under WFSysV are not yet theorems.",
+    "technique": "Lean 4 proof (soundness, step bound) + differential correspondence on gABI-built tables + linear-scan / reference-hash oracle",
+}
+LEVEL_TEXT["C13"] = {
+    "text": "Theorems: a requirement returned for symbol i is built from a Verneed record and an aux record of its chain whose vna_other equals "
+            "versym[i] mod 2^15, with file/name the strings at vn_file/vna_name, hash/flags copied, hidden = bit 15; a definition comes from a "
+            "Verdef with vd_ndx = versym[i] mod 2^15 and hands out that record's aux chain (count vd_cnt); indexes beyond the versym table "
+            "never give a record; missing VERNEED/VERDEF section => None; sh_link/sh_info wiring of symbol_version_table. Which record is "
+            "*first* in any forward layout is established by the correspondence on version models laid out contiguously and interleaved "
+            "with gaps, checked against the builder's ground truth.",
+    "note": COMMON_NOTE + " The chain-predicate theorem (iterator = records of any forward layout) is pending; traversal order is currently validated differentially.",
+    "technique": "Lean 4 proof of query specifications + differential correspondence + version-model ground-truth oracle",
+}
+LEVEL_TEXT["C14"] = {
+    "text": "Theorem parse_at_spec: for every buffer, cursor, class, order and non-zero alignment, one step of note iteration equals the ABI "
+            "record at the cursor (12-byte header of three 32-bit words for both classes, name window, padding to align, descriptor window, "
+            "padded end as next cursor) with the crate's typed reading (GNU ABI tag needs 16 bytes / build id / untyped), and fails exactly "
+            "when no record fits; padUp is the least multiple of align >= x; zero alignment yields nothing; name_str = UTF-8 check + strip "
+            "of all trailing NULs; each yield advances the cursor by >= 12. Tied to note.rs by a residue sweep over every (namesz, descsz) "
+            "mod align, arbitrary alignments, truncation and trailing garbage, and an independent reference walker.",
+    "note": COMMON_NOTE,
+    "technique": "Lean 4 proof (step = ABI record) + differential correspondence + reference note walker",
+}
+LEVEL_TEXT["C16"] = {
+    "text": "All loops of the model are structural recursions on explicit fuel (termination kernel-checked); theorems show the supplied fuel "
+            "suffices and bound the work: version-record iterators yield <= declared count (every yield strictly decreases count; next=0 "
+            "forces count 0), table iterators yield len <= bytes items, note iterators <= bytes/12, SysV walks <= nchain steps, GNU walks <= "
+            "chain_len entries. Wall-clock (`completes within seconds`) cannot be a theorem: every adversarial case (cycles of every length, "
+            "chains without stop bit, self-pointing/overlapping records, absurd counts) is run on the real code under a 5 s per-case "
+            "threshold and a process timeout; a hang is attributed to its request line.",
+    "note": COMMON_NOTE + " Partial: wall-clock time is measured, not proved.",
+    "technique": "Lean 4 proof of step/yield bounds + timed differential runs on adversarial link structures",
 }
 
 # every property not yet claimed is listed here with the reason; entries disappear as checks land
